@@ -52,7 +52,9 @@ func VerifSetup_NTTModuli(n int, tier int) []uint64 {
 			res = append(res, q)
 		}
 	}
-	if tier == 0 && len(res) > 3 {
+	if (tier == 0 || n >= 64) && len(res) > 3 {
+		// (the thorough tier keeps every modulus up to N=32; the larger transforms run on the smallest, a middle and the
+		// largest modulus: memory of the unrolled symbolic state)
 		res = []uint64{res[0], res[len(res)/2], res[len(res)-1]}
 	}
 	return res
